@@ -593,7 +593,9 @@ class CallMixin:
                             return edge.a.endswith(args[0])
                         if name == "startswith" and len(edge.a) >= len(args[0]):
                             return edge.a.startswith(args[0])
-                return SBool((name, s.key(), _deep(args[0])))
+                atom = (name, s.key(), _deep(args[0]))
+                self.run.atom_info[atom] = {"op": name, "recv": s, "arg": args[0]}
+                return SBool(atom)
             if name in _PURE_STR_METHODS:
                 if name in ("split", "rsplit", "splitlines", "partition", "rpartition"):
                     o = SOpaque((f"str.{name}", repr(s)) + tuple(short(a) for a in args), {"LIST"})
@@ -679,7 +681,10 @@ class CallMixin:
                     key = args[0] if not isinstance(args[0], Sym) else _K(args[0])
                     if key in recv.items:
                         return recv.items.pop(key)
-                    return SOpaque(("dict.pop", recv.uid, short(args[0])))
+                    v = self.get_item(recv, args[0], node)  # type: ignore[arg-type]
+                    if isinstance(v, SObj) and len(args) > 1 and not isinstance(args[1], Sym):
+                        v.kinds = v.kinds | {kinds_of_pyvalue(args[1])}
+                    return v
                 recv.concrete = False
                 return None
             if name == "copy":
@@ -775,7 +780,14 @@ class CallMixin:
         if kinds <= frozenset({"HTMLSTR"}) and name in _PURE_STR_METHODS:
             data = self.as_sstr(self.get_attr(recv, "data", node))
             if name in ("endswith", "startswith"):
-                return SBool((name, data.key() if data else _ref(recv), _deep(args[0])))
+                atom = (name, data.key() if data else _ref(recv), _deep(args[0]))
+                self.run.atom_info[atom] = {"op": name, "recv": data, "arg": args[0], "obj": recv}
+                return SBool(atom)
+            if name in ("split", "rsplit", "splitlines"):
+                so = SObj(f"{short(recv)}.{name}({', '.join(short(a) for a in args)})", {"LIST"}, origin="new")
+                so.meta["strop"] = {"op": name, "recv": data, "args": list(args), "obj": recv}
+                so.meta["elem_kinds"] = {"STR"}
+                return so
             return SOpaque((f"UserString.{name}", _ref(recv)))
         if kinds <= frozenset({"VERSION"}):
             return SOpaque((f"Version.{name}", _ref(recv)))
